@@ -44,6 +44,19 @@ EXTRA += [
 ]
 
 
+EXTRA += [
+    # a class body (also under its control flow, in a nested class, in a comprehension of the body) that reads a PARAMETER / a
+    # local of the enclosing function which nothing else captures
+    gen_class.OBSERVE +
+    "def make(n, names, flag=True):\n    local = n * 2\n    class C:\n        size = n\n        twice = local\n        if flag:\n            kind = 'flagged'\n"
+    "        for nm in names:\n            last = nm\n        labels = [nm.upper() for nm in names]\n        class Inner:\n            depth = n + 1\n"
+    "        def get(self):\n            return self.size\n    return C\nK = make(3, ['a', 'b'])\n_show(K)\nprint(K().get(), K.Inner.depth, K.labels)\n",
+    gen_class.OBSERVE +
+    "class Outer:\n    def build(self, width, *extra, **opts):\n        class Row:\n            w = width\n            more = extra\n            o = sorted(opts)\n        return Row\n"
+    "R = Outer().build(4, 5, 6, z=1)\n_show(R)\nprint(R.w, R.more, R.o)\n",
+]
+
+
 def run(chk, build, replay=None):
     common.standard_proof_part(chk, build, VFILES)
     chk.trusted += [
